@@ -568,6 +568,128 @@ Proof.
 Qed.
 
 (* ------------------------------------------------------------------------------------ *)
+(* whole-record assignment (the LasData.points setter)                                   *)
+(* ------------------------------------------------------------------------------------ *)
+Lemma edim_eqv_facts a b : edim_eqv a b = true -> ed_name a = ed_name b /\ et_size (ed_type a) = et_size (ed_type b).
+Proof. unfold edim_eqv. intros H. split_andb. split; [now apply name_eqb_eq|lia]. Qed.
+
+Lemma fmt_eqv_names a : forall b, fmt_eqv a b = true -> extra_names a = extra_names b.
+Proof.
+  induction a as [|x a IH]; intros [|y b] H; cbn [fmt_eqv] in H; try discriminate; [reflexivity|].
+  apply andb_true_iff in H as [Hx Hr]. cbn [extra_names map]. destruct (edim_eqv_facts _ _ Hx) as [-> _].
+  f_equal. now apply IH.
+Qed.
+
+Lemma fmt_eqv_size a : forall b, fmt_eqv a b = true -> extras_size a = extras_size b.
+Proof.
+  induction a as [|x a IH]; intros [|y b] H; cbn [fmt_eqv] in H; try discriminate; [reflexivity|].
+  apply andb_true_iff in H as [Hx Hr]. cbn [extras_size fold_right]. destruct (edim_eqv_facts _ _ Hx) as [_ ->].
+  f_equal. now apply IH.
+Qed.
+
+Lemma extras_size_nonneg ex : (forall d, In d ex -> 0 <= et_size (ed_type d)) -> 0 <= extras_size ex.
+Proof.
+  induction ex as [|d ex IH]; intros H; [cbn; lia|]. cbn [extras_size fold_right].
+  pose proof (H d (or_introl eq_refl)). assert (0 <= extras_size ex) by (apply IH; intros d' Hd'; apply H; now right).
+  unfold extras_size in *. lia.
+Qed.
+
+(* cutting exactly extras_size bytes by the format gives well-formed entries, and gluing them gives the bytes back *)
+Lemma split_fields_wf ex : (forall d, In d ex -> 0 <= et_size (ed_type d)) ->
+  forall bs, len bs = extras_size ex -> entries_wf ex (split_fields ex bs) /\ concat (map snd (split_fields ex bs)) = bs.
+Proof.
+  induction ex as [|d ex IH]; intros Hpos bs Hl.
+  - cbn [split_fields]. split; [split; reflexivity|]. destruct bs; [reflexivity|]. unfold len in Hl. cbn in Hl. lia.
+  - cbn [split_fields]. cbn [extras_size fold_right] in Hl. fold (extras_size ex) in Hl.
+    pose proof (Hpos d (or_introl eq_refl)) as Hd.
+    assert (forall d', In d' ex -> 0 <= et_size (ed_type d')) as Hpos' by (intros d' Hd'; apply Hpos; now right).
+    pose proof (extras_size_nonneg ex Hpos') as Hex.
+    set (n := Z.to_nat (et_size (ed_type d))).
+    assert (length (firstn n bs) = n) as Hf by (apply firstn_length_le; unfold len in Hl; lia).
+    assert (len (skipn n bs) = extras_size ex) as Hs by (unfold len in *; rewrite skipn_length; lia).
+    destruct (IH Hpos' (skipn n bs) Hs) as [Hwf Hcat]. split.
+    + apply entries_wf_cons. cbn [fst snd]. split; [reflexivity|]. split; [unfold len; rewrite Hf; lia|exact Hwf].
+    + cbn [map concat snd]. rewrite Hcat. apply firstn_skipn.
+Qed.
+
+Lemma split_rec_wf std ex b : 0 <= std -> (forall d, In d ex -> 0 <= et_size (ed_type d)) ->
+  len b = std + extras_size ex -> rec_wf std ex (split_rec std ex b) /\ rec_bytes (split_rec std ex b) = b.
+Proof.
+  intros Hstd Hpos Hl. pose proof (extras_size_nonneg ex Hpos) as Hex.
+  assert (len (drop std b) = extras_size ex) as Hd by (unfold drop, len in *; rewrite skipn_length; lia).
+  destruct (split_fields_wf ex Hpos (drop std b) Hd) as [Hwf Hcat]. split.
+  - apply rec_wf_entries. unfold split_rec. cbn [fst snd]. split; [|exact Hwf].
+    unfold take, len in *. rewrite firstn_length_le; lia.
+  - unfold rec_bytes, split_rec. cbn [fst snd]. rewrite Hcat. apply firstn_skipn.
+Qed.
+
+Lemma recs_okb_len std ex recs b : recs_okb std ex recs = true -> In b recs -> len b = std + extras_size ex.
+Proof.
+  intros H Hb. pose proof (proj1 (forallb_forall _ _) H b Hb) as Hx. apply andb_true_iff in Hx as [Hx _]. lia.
+Qed.
+
+Lemma set_points_inv s ex recs : Inv s -> Inv (fst (do_set_points s ex recs)).
+Proof.
+  intros Hinv. pose proof Hinv as [(std & Hstd & Hpos & Hrecs) Hdims Hnames Hvlr]. unfold do_set_points. rewrite Hstd.
+  destruct (recs_okb std ex recs) eqn:Eok; cbn [negb]; [|exact Hinv].
+  destruct (fmt_eqv ex (st_extras s)) eqn:Eeq; cbn [negb]; [|exact Hinv]. cbn [fst].
+  constructor; cbn [st_fmt st_extras st_recs st_vlrs]; try assumption.
+  exists std. split; [exact Hstd|]. split; [exact Hpos|]. intros r Hr. apply in_map_iff in Hr as (b & <- & Hb).
+  apply split_rec_wf; [exact Hpos|now apply edims_size_nonneg|].
+  rewrite <- (fmt_eqv_size _ _ Eeq). now apply (recs_okb_len std ex recs).
+Qed.
+
+(* an accepted whole-record assignment: the format and the VLRs stay, the record reads back byte for byte *)
+Theorem set_points_ok s ex recs std : Inv s -> std_size (st_fmt s) = Some std -> recs_okb std ex recs = true ->
+  fmt_eqv ex (st_extras s) = true ->
+  snd (step s (SetPoints ex recs)) = Ok tt
+  /\ st_extras (fst (step s (SetPoints ex recs))) = st_extras s
+  /\ st_vlrs (fst (step s (SetPoints ex recs))) = st_vlrs s
+  /\ map rec_bytes (st_recs (fst (step s (SetPoints ex recs)))) = recs.
+Proof.
+  intros [(std' & Hstd' & Hpos & _) Hdims _ _] Hstd Hok Heq. rewrite Hstd in Hstd'. injection Hstd' as <-.
+  cbn [step]. unfold do_set_points. rewrite Hstd, Hok, Heq. cbn [negb fst snd st_extras st_vlrs st_recs].
+  repeat split. rewrite map_map. rewrite <- (map_id recs) at 2. apply map_ext_in. intros b Hb.
+  apply split_rec_wf; [exact Hpos|now apply edims_size_nonneg|].
+  rewrite <- (fmt_eqv_size _ _ Heq). now apply (recs_okb_len std ex recs).
+Qed.
+
+(* a record whose format differs is refused with a LaspyException (IncompatibleDataFormat), nothing changes *)
+Theorem set_points_mismatch s ex recs std : std_size (st_fmt s) = Some std -> recs_okb std ex recs = true ->
+  fmt_eqv ex (st_extras s) = false -> step s (SetPoints ex recs) = (s, Err ELaspy).
+Proof. intros Hstd Hok Hne. cbn [step]. unfold do_set_points. now rewrite Hstd, Hok, Hne. Qed.
+
+Lemma f64s_eqv_refl l : forallb (fun z => negb (f64_is_nan z)) l = true -> f64s_eqv l l = true.
+Proof.
+  induction l as [|x l IH]; [reflexivity|]. cbn [forallb f64s_eqv]. intros H. apply andb_true_iff in H as [Hx Hl].
+  unfold f64_eqv. rewrite Hx, Z.eqb_refl, (IH Hl). reflexivity.
+Qed.
+
+(* a format equals itself unless a scale or an offset is a NaN: the copy of the record, the record of a re-read
+   file, the record of another LasData with the same extra dimensions are all accepted *)
+Definition no_nan_scales (d : edim) : bool :=
+  match ed_scale d with
+  | None => true
+  | Some (sc, off) => forallb (fun z => negb (f64_is_nan z)) sc && forallb (fun z => negb (f64_is_nan z)) off
+  end.
+
+Lemma fmt_eqv_refl ex : forallb no_nan_scales ex = true -> fmt_eqv ex ex = true.
+Proof.
+  induction ex as [|d ex IH]; [reflexivity|]. cbn [forallb fmt_eqv]. intros H. apply andb_true_iff in H as [Hd Hex].
+  rewrite (IH Hex), andb_true_r. unfold edim_eqv. rewrite !name_eqb_refl, String.eqb_refl, Z.eqb_refl. cbn [andb].
+  unfold no_nan_scales in Hd. unfold scale_eqv. destruct (ed_scale d) as [[sc off]|]; [|reflexivity].
+  apply andb_true_iff in Hd as [H1 H2]. now rewrite (f64s_eqv_refl _ H1), (f64s_eqv_refl _ H2).
+Qed.
+
+Theorem set_points_same_format s recs std : Inv s -> std_size (st_fmt s) = Some std ->
+  forallb no_nan_scales (st_extras s) = true -> recs_okb std (st_extras s) recs = true ->
+  snd (step s (SetPoints (st_extras s) recs)) = Ok tt
+  /\ st_extras (fst (step s (SetPoints (st_extras s) recs))) = st_extras s
+  /\ st_vlrs (fst (step s (SetPoints (st_extras s) recs))) = st_vlrs s
+  /\ map rec_bytes (st_recs (fst (step s (SetPoints (st_extras s) recs)))) = recs.
+Proof. intros Hinv Hstd Hnn Hok. apply (set_points_ok s _ recs std); try assumption. now apply fmt_eqv_refl. Qed.
+
+(* ------------------------------------------------------------------------------------ *)
 (* the write / read round trip                                                           *)
 (* ------------------------------------------------------------------------------------ *)
 Lemma extras_size_pos ex : forallb edim_okb ex = true -> ex <> [] -> 0 < extras_size ex.
@@ -602,11 +724,12 @@ Proof. intros H. destruct (roundtrip_id s H) as (w & Hw & Hr). unfold do_roundtr
 
 Lemma step_inv s o : Inv s -> op_okb s o = true -> Inv (fst (step s o)).
 Proof.
-  intros Hinv Hok. destruct o as [ps|names|n vals|vals|]; cbn [step].
+  intros Hinv Hok. destruct o as [ps|names|n vals|vals|ex0 recs0|]; cbn [step].
   - now apply add_inv.
   - now apply remove_inv.
   - now apply assign_inv.
   - now apply assign_std_inv.
+  - now apply set_points_inv.
   - now rewrite do_roundtrip_id.
 Qed.
 
@@ -633,18 +756,20 @@ Qed.
 (* ------------------------------------------------------------------------------------ *)
 Lemma failed_step_unchanged s o : snd (step s o) <> Ok tt -> fst (step s o) = s.
 Proof.
-  destruct o as [ps|names|n vals|vals|]; cbn [step].
+  destruct o as [ps|names|n vals|vals|ex0 recs0|]; cbn [step].
   - unfold do_add. destruct (negb _); [reflexivity|]. destruct (sync_vlrs _ _); cbn [fst snd]; [congruence|reflexivity].
   - unfold do_remove. destruct (negb _); [reflexivity|]. destruct (sync_vlrs _ _); cbn [fst snd]; [congruence|reflexivity].
   - unfold do_assign. destruct (find_dim _ _); [|reflexivity]. destruct (_ && _); cbn [fst snd]; [congruence|reflexivity].
   - unfold do_assign_std. destruct (std_size _); [|reflexivity]. destruct (_ && _); cbn [fst snd]; [congruence|reflexivity].
+  - unfold do_set_points. destruct (std_size _); [|reflexivity]. destruct (negb _); [reflexivity|].
+    destruct (negb _); cbn [fst snd]; [reflexivity|congruence].
   - unfold do_roundtrip. destruct (write_state s); [|reflexivity]. destruct (read_state _); cbn [fst snd]; [congruence|reflexivity].
 Qed.
 
 Lemma std_bytes_step s o : Inv s -> op_touches_std o = false ->
   map fst (st_recs (fst (step s o))) = map fst (st_recs s).
 Proof.
-  intros Hinv Ht. destruct o as [ps|names|n vals|vals|]; cbn [step]; try discriminate.
+  intros Hinv Ht. destruct o as [ps|names|n vals|vals|ex0 recs0|]; cbn [step]; try discriminate.
   - unfold do_add. destruct (negb _); [reflexivity|]. destruct (sync_vlrs _ _); [|reflexivity].
     cbn [fst st_recs]. rewrite map_map. reflexivity.
   - unfold do_remove. destruct (negb _); [reflexivity|]. destruct (sync_vlrs _ _); [|reflexivity].
@@ -679,7 +804,7 @@ Theorem step_frame s o n : Inv s -> In n (extra_names (st_extras s)) -> ~ In n (
 Proof.
   intros Hinv Hin Hnot. pose proof Hinv as [(std & Hstd & Hpos & Hrecs) Hdims [Hnd Hns] Hvlr].
   apply nodupb_NoDup in Hnd.
-  destruct o as [ps|names|n0 vals|vals|]; cbn [step op_names] in *.
+  destruct o as [ps|names|n0 vals|vals|ex0 recs0|]; cbn [step op_names] in *.
   - unfold do_add. destruct (negb _); [now split|]. destruct (sync_vlrs _ _); [|now split]. cbn [fst st_extras st_recs].
     assert (In n (extra_names (st_extras s ++ ps))) as Hin' by (unfold extra_names; rewrite map_app; apply in_or_app; now left).
     split; [exact Hin'|]. now apply (frame_realloc std (st_extras s)).
@@ -695,6 +820,9 @@ Proof.
   - unfold do_assign_std. destruct (std_size _); [|now split]. destruct (_ && _) eqn:Ec; [|now split].
     apply andb_true_iff in Ec as [Hl _]. apply Nat.eqb_eq in Hl. cbn [fst st_extras st_recs]. split; [exact Hin|].
     rewrite map_map. rewrite <- (map_snd_combine vals (st_recs s) Hl) at 2. rewrite map_map. apply map_ext. now intros [v r].
+  - unfold do_set_points. destruct (std_size _); [|now split]. destruct (negb _); [now split|].
+    destruct (fmt_eqv ex0 (st_extras s)) eqn:Eeq; cbn [negb]; [|now split].
+    exfalso. apply Hnot. now rewrite (fmt_eqv_names _ _ Eeq).
   - rewrite do_roundtrip_id by exact Hinv. now split.
 Qed.
 
@@ -790,7 +918,7 @@ Qed.
 (* the VLRs that are not the extra-bytes record are never touched, and keep their order *)
 Theorem other_vlrs_step s o : Inv s -> filter not_eb (st_vlrs (fst (step s o))) = filter not_eb (st_vlrs s).
 Proof.
-  intros Hinv. pose proof Hinv as [_ Hdims _ _]. destruct o as [ps|names|n vals|vals|]; cbn [step].
+  intros Hinv. pose proof Hinv as [_ Hdims _ _]. destruct o as [ps|names|n vals|vals|ex0 recs0|]; cbn [step].
   - unfold do_add. destruct (forallb edim_okb ps) eqn:Eps; cbn [negb]; [|reflexivity].
     assert (forallb edim_okb (st_extras s ++ ps) = true) as Hall by (rewrite forallb_app, Hdims, Eps; reflexivity).
     now destruct (sync_inv _ (st_vlrs s) Hall) as (vl' & -> & _ & Hk).
@@ -798,6 +926,7 @@ Proof.
     now destruct (sync_inv _ (st_vlrs s) (forallb_filter _ (fun d => negb (mem_name (ed_name d) names)) _ Hdims)) as (vl' & -> & _ & Hk).
   - unfold do_assign. destruct (find_dim _ _); [|reflexivity]. now destruct (_ && _).
   - unfold do_assign_std. destruct (std_size _); [|reflexivity]. now destruct (_ && _).
+  - unfold do_set_points. destruct (std_size _); [|reflexivity]. destruct (negb _); [reflexivity|]. now destruct (negb _).
   - now rewrite do_roundtrip_id.
 Qed.
 
@@ -862,11 +991,12 @@ Qed.
 (* ------------------------------------------------------------------------------------ *)
 Lemma step_fmt s o : Inv s -> st_fmt (fst (step s o)) = st_fmt s.
 Proof.
-  intros Hinv. destruct o as [ps|names|n vals|vals|]; cbn [step].
+  intros Hinv. destruct o as [ps|names|n vals|vals|ex0 recs0|]; cbn [step].
   - unfold do_add. destruct (negb _); [reflexivity|]. now destruct (sync_vlrs _ _).
   - unfold do_remove. destruct (negb _); [reflexivity|]. now destruct (sync_vlrs _ _).
   - unfold do_assign. destruct (find_dim _ _); [|reflexivity]. now destruct (_ && _).
   - unfold do_assign_std. destruct (std_size _); [|reflexivity]. now destruct (_ && _).
+  - unfold do_set_points. destruct (std_size _); [|reflexivity]. destruct (negb _); [reflexivity|]. now destruct (negb _).
   - now rewrite do_roundtrip_id.
 Qed.
 
